@@ -1,6 +1,7 @@
 package main
 
 import (
+	"go/token"
 	"go/ast"
 	"go/types"
 )
@@ -190,6 +191,25 @@ func runC10(c *Ctx) {
 		w = f.search(searchSpec{starts: tells, avoidEdges: f.loopBackEdges(), target: tell})
 		c.Check(len(tells) == 1 && w == nil, "one-tell-per-entry", "each dropped entry produces at most one synthesized Terminated", c.P.Pos(pr.Decl.Pos()), f.describe(w))
 		c.WhoMayCall("who", pr.Obj, map[string]string{"actor.(*actorSystem).handleNodeLeftEvent": "cluster node-left event", "actor.(*actorSystem).clusterEventsLoop": "cluster node-left event", "actor.(*actorSystem).handleClusterEvent": "cluster node-left event", "actor.(*actorSystem).handleNodeLeft": "cluster node-left event"})
+	})
+
+	c.Rule("unwatch-always-removes", func() {
+		// an UnWatch is honoured whatever state the watchee is in (running, stopping, suspended): otherwise the watcher that
+		// unsubscribed is still in the snapshot freeWatchers takes and receives a Terminated it asked not to get
+		uw := c.Func("actor", "PID.UnWatch")
+		f := c.NewFlow(uw)
+		info := f.Info
+		rm := f.CallTo(c.FuncObj("actor", "tree.removeWatcher"))
+		// exits that need not remove: the receiver is a remote handle / nil argument, or the watchee is remote (handled by the remote registry)
+		skip := f.AnyTrueEdges(func(e ast.Expr) bool {
+			if isCallNamed(info, e, "IsRemote") {
+				return true
+			}
+			be, ok := e.(*ast.BinaryExpr)
+			return ok && be.Op == token.EQL && (isNilIdent(info, be.Y) || isNilIdent(info, be.X))
+		})
+		w := f.search(searchSpec{avoid: rm, avoidEdges: skip, exits: true})
+		c.Check(w == nil && len(f.Find(rm)) == 1, "local-unwatch⇒removed", "for a local watchee UnWatch always removes the watch relation, independent of the watchee's state", c.P.Pos(uw.Decl.Pos()), f.describe(w))
 	})
 
 	c.Rule("relation", func() {
